@@ -658,3 +658,318 @@ Theorem C03_dot_float_error : forall (a b : C03.Model.dm PrimFloat.float) (d : P
   (Rabs (FloatError.FR d - FloatError.Rsuml (map t (seq 0 n))) <=
     ((1 + FloatError.u64) ^ n - 1) * (FloatError.Rsumabs (map t (seq 0 n)) + INR n * FloatError.eta64) + INR n * FloatError.eta64)%R.
 Proof. exact C03.ProofsFloat.dot_float_error. Qed.
+
+(* ------------------------------------------------------------------------------------------
+   More rounding theorems for the binary64 instance (C03/ProofsFloat2.v), same vocabulary.
+   matmul / ab / Vec dot: every FINITE entry of the result is a dot product of K terms of either
+   sign: error relative to the sum of magnitudes of the exact products, (1+u)^K - 1, plus K
+   underflow terms 2^-1075; all operands that entered the entry are then finite.
+   ------------------------------------------------------------------------------------------ *)
+From Coq Require Import Lra.
+From SC Require C03.ProofsFloat2.
+
+Theorem C03_matmul_entry_float_error : forall (a b c : C03.Model.dm PrimFloat.float) (i j : nat),
+  C03.Model.matmul FOps a b = Some c -> i < C03.Model.nrows a -> j < C03.Model.ncols b ->
+  FloatError.ffin (C03.Model.get FOps c i j) ->
+  let K := C03.Model.ncols a in
+  let t := fun k => (FloatError.FR (C03.Model.get FOps a i k) * FloatError.FR (C03.Model.get FOps b k j))%R in
+  (forall k, k < K -> FloatError.ffin (C03.Model.get FOps a i k) /\ FloatError.ffin (C03.Model.get FOps b k j)) /\
+  (exists cR, C03.Model.matmul ROps (C03.ProofsFloat.RM a) (C03.ProofsFloat.RM b) = Some cR /\
+              C03.Model.get ROps cR i j = FloatError.Rsuml (map t (seq 0 K))) /\
+  (Rabs (FloatError.FR (C03.Model.get FOps c i j) - FloatError.Rsuml (map t (seq 0 K))) <=
+    ((1 + FloatError.u64) ^ K - 1) * (FloatError.Rsumabs (map t (seq 0 K)) + INR K * FloatError.eta64)
+    + INR K * FloatError.eta64)%R.
+Proof. exact C03.ProofsFloat2.matmul_entry_float_error. Qed.
+
+(* DenseMatrix::ab with its four transposition flags: entry (i,j) of op(a) * op(b) *)
+Theorem C03_ab_entry_float_error : forall (a b c : C03.Model.dm PrimFloat.float) (ta tb : bool) (i j : nat),
+  C03.Model.ab FOps a ta b tb = Some c ->
+  let n := if ta then C03.Model.ncols a else C03.Model.nrows a in
+  let K := if ta then C03.Model.nrows a else C03.Model.ncols a in
+  let p := if tb then C03.Model.nrows b else C03.Model.ncols b in
+  let A := fun r k => if ta then C03.Model.get FOps a k r else C03.Model.get FOps a r k in
+  let B := fun k c => if tb then C03.Model.get FOps b c k else C03.Model.get FOps b k c in
+  i < n -> j < p -> FloatError.ffin (C03.Model.get FOps c i j) ->
+  let t := fun k => (FloatError.FR (A i k) * FloatError.FR (B k j))%R in
+  (forall k, k < K -> FloatError.ffin (A i k) /\ FloatError.ffin (B k j)) /\
+  (exists cR, C03.Model.ab ROps (C03.ProofsFloat.RM a) ta (C03.ProofsFloat.RM b) tb = Some cR /\
+              C03.Model.get ROps cR i j = FloatError.Rsuml (map t (seq 0 K))) /\
+  (Rabs (FloatError.FR (C03.Model.get FOps c i j) - FloatError.Rsuml (map t (seq 0 K))) <=
+    ((1 + FloatError.u64) ^ K - 1) * (FloatError.Rsumabs (map t (seq 0 K)) + INR K * FloatError.eta64)
+    + INR K * FloatError.eta64)%R.
+Proof. exact C03.ProofsFloat2.ab_entry_float_error. Qed.
+
+(* BaseVector::dot of two Vec<T> *)
+Theorem C03_vdot_float_error : forall (a b : list PrimFloat.float) (d : PrimFloat.float),
+  C03.Model.vdot FOps a b = Some d -> FloatError.ffin d ->
+  let n := length a in
+  let t := fun k => (FloatError.FR (nth k a 0%float) * FloatError.FR (nth k b 0%float))%R in
+  length b = n /\ Forall FloatError.ffin a /\ Forall FloatError.ffin b /\
+  C03.Model.vdot ROps (map FloatError.FR a) (map FloatError.FR b) = Some (FloatError.Rsuml (map t (seq 0 n))) /\
+  (Rabs (FloatError.FR d - FloatError.Rsuml (map t (seq 0 n))) <=
+    ((1 + FloatError.u64) ^ n - 1) * (FloatError.Rsumabs (map t (seq 0 n)) + INR n * FloatError.eta64)
+    + INR n * FloatError.eta64)%R.
+Proof. exact C03.ProofsFloat2.vdot_float_error. Qed.
+
+(* norm2 (Frobenius norm of a matrix, Euclidean norm of a Vec<T>): sqrt of a sum of squares — no
+   cancellation, so the error is relative to the norm itself: n multiplications, n-1 inexact
+   additions, one square root => (1+u)^(n+1) - 1.  Side condition (no underflow in a square): every
+   entry is zero or at least 2^-511 in magnitude; overflow is excluded by the finite result. *)
+Theorem C03_norm2_float_error : forall (m : C03.Model.dm PrimFloat.float),
+  FloatError.ffin (C03.Model.norm2 FOps m) ->
+  (forall x, In x (C03.Model.values m) -> FloatError.FR x = 0 \/ / 2 ^ 511 <= Rabs (FloatError.FR x))%R ->
+  let n := length (C03.Model.values m) in
+  let Q := FloatError.Rsuml (map (fun x => FloatError.FR x * FloatError.FR x)%R (C03.Model.values m)) in
+  C03.Model.norm2 ROps (C03.ProofsFloat.RM m) = R_sqrt.sqrt Q /\ (0 <= Q)%R /\
+  Forall FloatError.ffin (C03.Model.values m) /\ (0 <= FloatError.FR (C03.Model.norm2 FOps m))%R /\
+  (Rabs (FloatError.FR (C03.Model.norm2 FOps m) - R_sqrt.sqrt Q) <=
+     ((1 + FloatError.u64) ^ (n + 1) - 1) * R_sqrt.sqrt Q)%R.
+Proof.
+  intros m Hfin Hno. apply (C03.ProofsFloat2.norm2_float_error m Hfin).
+  apply C03.ProofsFloat2.entry_normal_intro, Hno.
+Qed.
+
+Theorem C03_vnorm2_float_error : forall (l : list PrimFloat.float),
+  FloatError.ffin (C03.Model.vnorm2 FOps l) ->
+  (forall x, In x l -> FloatError.FR x = 0 \/ / 2 ^ 511 <= Rabs (FloatError.FR x))%R ->
+  let n := length l in
+  let Q := FloatError.Rsuml (map (fun x => FloatError.FR x * FloatError.FR x)%R l) in
+  C03.Model.vnorm2 ROps (map FloatError.FR l) = R_sqrt.sqrt Q /\ (0 <= Q)%R /\
+  Forall FloatError.ffin l /\ (0 <= FloatError.FR (C03.Model.vnorm2 FOps l))%R /\
+  (Rabs (FloatError.FR (C03.Model.vnorm2 FOps l) - R_sqrt.sqrt Q) <=
+     ((1 + FloatError.u64) ^ (n + 1) - 1) * R_sqrt.sqrt Q)%R.
+Proof.
+  intros l Hfin Hno. apply (C03.ProofsFloat2.vnorm2_float_error l Hfin).
+  apply C03.ProofsFloat2.entry_normal_intro, Hno.
+Qed.
+
+(* the same with the no-underflow hypothesis in DECIDABLE form (evaluate with vm_compute):
+   entries_normal_b l = every |x| is 0 or >= 0x1p-511 *)
+Theorem C03_norm2_float_error_checked : forall (m : C03.Model.dm PrimFloat.float),
+  FloatError.ffin (C03.Model.norm2 FOps m) ->
+  C03.ProofsFloat2.entries_normal_b (C03.Model.values m) = true ->
+  let n := length (C03.Model.values m) in
+  let Q := FloatError.Rsuml (map (fun x => FloatError.FR x * FloatError.FR x)%R (C03.Model.values m)) in
+  C03.Model.norm2 ROps (C03.ProofsFloat.RM m) = R_sqrt.sqrt Q /\ (0 <= Q)%R /\
+  Forall FloatError.ffin (C03.Model.values m) /\ (0 <= FloatError.FR (C03.Model.norm2 FOps m))%R /\
+  (Rabs (FloatError.FR (C03.Model.norm2 FOps m) - R_sqrt.sqrt Q) <=
+     ((1 + FloatError.u64) ^ (n + 1) - 1) * R_sqrt.sqrt Q)%R.
+Proof. exact C03.ProofsFloat2.norm2_float_error_checked. Qed.
+
+Theorem C03_entries_normal_b_meaning : forall (l : list PrimFloat.float),
+  Forall FloatError.ffin l -> C03.ProofsFloat2.entries_normal_b l = true ->
+  (forall x, In x l -> FloatError.FR x = 0 \/ / 2 ^ 511 <= Rabs (FloatError.FR x))%R.
+Proof. exact C03.ProofsFloat2.entries_normal_b_prop. Qed.
+
+(* means: a recursive sum of n terms of either sign, then ONE division by n (n < 2^53 converts
+   exactly): (1+u)^n - 1 relative to the mean of the magnitudes, plus 2^-1075 for a subnormal
+   quotient.  MatrixStats::mean on either axis (entry i), BaseMatrix::column_mean (column c),
+   BaseVector::mean.  A finite result implies n > 0 (0/0 is NaN) and finite inputs. *)
+Theorem C03_mean_float_error : forall (m : C03.Model.dm PrimFloat.float) (axis0 : bool) (i : nat),
+  i < C03.Model.n_lines m axis0 -> (Z.of_nat (C03.Model.line_len m axis0) < 2 ^ 53)%Z ->
+  FloatError.ffin (nth i (C03.Model.mean FOps m axis0) 0%float) ->
+  let n := C03.Model.line_len m axis0 in
+  let v := map (fun j => FloatError.FR (C03.Model.line FOps m axis0 i j)) (seq 0 n) in
+  0 < n /\ (forall j, j < n -> FloatError.ffin (C03.Model.line FOps m axis0 i j)) /\
+  nth i (C03.Model.mean ROps (C03.ProofsFloat.RM m) axis0) 0%R = (FloatError.Rsuml v / INR n)%R /\
+  (Rabs (FloatError.FR (nth i (C03.Model.mean FOps m axis0) 0%float) - FloatError.Rsuml v / INR n) <=
+    ((1 + FloatError.u64) ^ n - 1) * (FloatError.Rsumabs v / INR n) + FloatError.eta64)%R.
+Proof. exact C03.ProofsFloat2.mean_float_error. Qed.
+
+Theorem C03_column_mean_float_error : forall (m : C03.Model.dm PrimFloat.float) (c : nat),
+  c < C03.Model.ncols m -> (Z.of_nat (C03.Model.nrows m) < 2 ^ 53)%Z ->
+  FloatError.ffin (nth c (C03.Model.column_mean FOps m) 0%float) ->
+  let n := C03.Model.nrows m in
+  let v := map (fun r => FloatError.FR (C03.Model.get FOps m r c)) (seq 0 n) in
+  0 < n /\ (forall r, r < n -> FloatError.ffin (C03.Model.get FOps m r c)) /\
+  nth c (C03.Model.column_mean ROps (C03.ProofsFloat.RM m)) 0%R = (FloatError.Rsuml v / INR n)%R /\
+  (Rabs (FloatError.FR (nth c (C03.Model.column_mean FOps m) 0%float) - FloatError.Rsuml v / INR n) <=
+    ((1 + FloatError.u64) ^ n - 1) * (FloatError.Rsumabs v / INR n) + FloatError.eta64)%R.
+Proof. exact C03.ProofsFloat2.column_mean_float_error. Qed.
+
+Theorem C03_vmean_float_error : forall (a : list PrimFloat.float),
+  (Z.of_nat (length a) < 2 ^ 53)%Z -> FloatError.ffin (C03.Model.vmean FOps a) ->
+  let n := length a in
+  let v := map FloatError.FR a in
+  0 < n /\ Forall FloatError.ffin a /\ C03.Model.vmean ROps v = (FloatError.Rsuml v / INR n)%R /\
+  (Rabs (FloatError.FR (C03.Model.vmean FOps a) - FloatError.Rsuml v / INR n) <=
+    ((1 + FloatError.u64) ^ n - 1) * (FloatError.Rsumabs v / INR n) + FloatError.eta64)%R.
+Proof. exact C03.ProofsFloat2.vmean_float_error. Qed.
+
+(* entrywise add / sub / mul: one rounding per entry (a sum or difference never underflows; a
+   product may: 2^-1075, not if the exact product is at least 2^-1022 in magnitude) *)
+Theorem C03_add_float_error : forall (a b c : C03.Model.dm PrimFloat.float) (i j : nat),
+  C03.Model.add FOps a b = Some c -> i < C03.Model.nrows a -> j < C03.Model.ncols a ->
+  FloatError.ffin (C03.Model.get FOps c i j) ->
+  let x := FloatError.FR (C03.Model.get FOps a i j) in let y := FloatError.FR (C03.Model.get FOps b i j) in
+  FloatError.ffin (C03.Model.get FOps a i j) /\ FloatError.ffin (C03.Model.get FOps b i j) /\
+  (exists cR, C03.Model.add ROps (C03.ProofsFloat.RM a) (C03.ProofsFloat.RM b) = Some cR /\
+              C03.Model.get ROps cR i j = (x + y)%R) /\
+  (Rabs (FloatError.FR (C03.Model.get FOps c i j) - (x + y)) <= FloatError.u64 * Rabs (x + y))%R.
+Proof. exact C03.ProofsFloat2.add_float_error. Qed.
+
+Theorem C03_sub_float_error : forall (a b c : C03.Model.dm PrimFloat.float) (i j : nat),
+  C03.Model.sub FOps a b = Some c -> i < C03.Model.nrows a -> j < C03.Model.ncols a ->
+  FloatError.ffin (C03.Model.get FOps c i j) ->
+  let x := FloatError.FR (C03.Model.get FOps a i j) in let y := FloatError.FR (C03.Model.get FOps b i j) in
+  FloatError.ffin (C03.Model.get FOps a i j) /\ FloatError.ffin (C03.Model.get FOps b i j) /\
+  (exists cR, C03.Model.sub ROps (C03.ProofsFloat.RM a) (C03.ProofsFloat.RM b) = Some cR /\
+              C03.Model.get ROps cR i j = (x - y)%R) /\
+  (Rabs (FloatError.FR (C03.Model.get FOps c i j) - (x - y)) <= FloatError.u64 * Rabs (x - y))%R.
+Proof. exact C03.ProofsFloat2.sub_float_error. Qed.
+
+Theorem C03_mul_float_error : forall (a b c : C03.Model.dm PrimFloat.float) (i j : nat),
+  C03.Model.mul FOps a b = Some c -> i < C03.Model.nrows a -> j < C03.Model.ncols a ->
+  FloatError.ffin (C03.Model.get FOps c i j) ->
+  let x := FloatError.FR (C03.Model.get FOps a i j) in let y := FloatError.FR (C03.Model.get FOps b i j) in
+  FloatError.ffin (C03.Model.get FOps a i j) /\ FloatError.ffin (C03.Model.get FOps b i j) /\
+  (exists cR, C03.Model.mul ROps (C03.ProofsFloat.RM a) (C03.ProofsFloat.RM b) = Some cR /\
+              C03.Model.get ROps cR i j = (x * y)%R) /\
+  (Rabs (FloatError.FR (C03.Model.get FOps c i j) - x * y) <= FloatError.u64 * Rabs (x * y) + FloatError.eta64)%R /\
+  (/ 2 ^ 1022 <= Rabs (x * y) ->
+   Rabs (FloatError.FR (C03.Model.get FOps c i j) - x * y) <= FloatError.u64 * Rabs (x * y))%R.
+Proof. exact C03.ProofsFloat2.mul_float_error. Qed.
+
+(* Exact scale invariance in binary64.  If every entry of m' is the corresponding entry of m times
+   2^e as a real number (the scaling rounded nothing) and both computed sums are finite (no
+   overflow), the computed sums differ by exactly the factor 2^e — for every sign pattern and every
+   amount of cancellation, also when partial sums are subnormal. *)
+Theorem C03_sum_scale_exact : forall (e : Z) (m m' : C03.Model.dm PrimFloat.float),
+  Forall2 (fun x x' => FloatError.FR x' = FloatError.FR x * powerRZ 2 e)%R (C03.Model.values m) (C03.Model.values m') ->
+  FloatError.ffin (C03.Model.sum FOps m) -> FloatError.ffin (C03.Model.sum FOps m') ->
+  (FloatError.FR (C03.Model.sum FOps m') = FloatError.FR (C03.Model.sum FOps m) * powerRZ 2 e)%R.
+Proof. exact C03.ProofsFloat2.sum_scale_exact. Qed.
+
+(* ... in terms of the model's own mul_scalar with p = 2^e *)
+Theorem C03_sum_mul_scalar_pow2 : forall (e : Z) (m : C03.Model.dm PrimFloat.float) (p : PrimFloat.float),
+  FloatError.FR p = powerRZ 2 e ->
+  (forall x, In x (C03.Model.values m) -> FloatError.FR (PrimFloat.mul x p) = FloatError.FR x * FloatError.FR p)%R ->
+  FloatError.ffin (C03.Model.sum FOps m) -> FloatError.ffin (C03.Model.sum FOps (C03.Model.mul_scalar FOps m p)) ->
+  (FloatError.FR (C03.Model.sum FOps (C03.Model.mul_scalar FOps m p)) = FloatError.FR (C03.Model.sum FOps m) * FloatError.FR p)%R.
+Proof. exact C03.ProofsFloat2.sum_mul_scalar_pow2. Qed.
+
+(* ... and for the vector dot product when no product underflows before or after the scaling
+   (every exact product a_i b_i is zero, or it and its scaled value are at least 2^-1022) *)
+Theorem C03_dot_scale_exact : forall (e : Z) (a a' b : C03.Model.dm PrimFloat.float) (d d' : PrimFloat.float),
+  C03.Model.nrows a' = C03.Model.nrows a -> C03.Model.ncols a' = C03.Model.ncols a ->
+  C03.Model.dot FOps a b = Some d -> C03.Model.dot FOps a' b = Some d' ->
+  FloatError.ffin d -> FloatError.ffin d' ->
+  let n := C03.Model.nrows a * C03.Model.ncols a in
+  (forall i, i < n ->
+     (FloatError.FR (nth i (C03.Model.values a') 0%float) = FloatError.FR (nth i (C03.Model.values a) 0%float) * powerRZ 2 e)%R /\
+     let t := (FloatError.FR (nth i (C03.Model.values a) 0%float) * FloatError.FR (nth i (C03.Model.values b) 0%float))%R in
+     (t = 0 \/ (/ 2 ^ 1022 <= Rabs t /\ / 2 ^ 1022 <= Rabs (t * powerRZ 2 e)))%R) ->
+  (FloatError.FR d' = FloatError.FR d * powerRZ 2 e)%R.
+Proof. exact C03.ProofsFloat2.dot_scale_exact. Qed.
+
+(* ---------------- the hypotheses are satisfiable (inputs 0.1, 0.2, 0.3, 0.7 ...: every operation rounds) ------- *)
+Example C03_matmul_float_instance :
+  let a := mkdm 2 2 [0x1.999999999999ap-4; 0x1.999999999999ap-3; 0x1.3333333333333p-2; 0x1.6666666666666p-1]%float in
+  let b := mkdm 2 2 [0x1.3333333333333p-2; (-0x1.999999999999ap-4); 0x1.6666666666666p-1; 0x1.999999999999ap-3]%float in
+  exists c, C03.Model.matmul FOps a b = Some c /\ 1 < nrows a /\ 0 < ncols b /\
+            FloatError.ffin (C03.Model.get FOps c 1 0).
+Proof. eexists. split; [vm_compute; reflexivity|]. split; [vm_compute; lia|]. split; vm_compute; [lia | reflexivity]. Qed.
+
+Example C03_ab_float_instance :
+  let a := mkdm 3 2 [0x1.999999999999ap-4; 0x1.999999999999ap-3; 0x1.3333333333333p-2; 0x1.6666666666666p-1; 1; (-2)]%float in
+  let b := mkdm 2 3 [0x1.3333333333333p-2; (-0x1.999999999999ap-4); 0x1.6666666666666p-1; 0x1.999999999999ap-3; 3; 0.5]%float in
+  exists c, C03.Model.ab FOps a true b true = Some c /\ 1 < ncols a /\ 0 < nrows b /\
+            FloatError.ffin (C03.Model.get FOps c 1 0).
+Proof. eexists. split; [vm_compute; reflexivity|]. split; [vm_compute; lia|]. split; vm_compute; [lia | reflexivity]. Qed.
+
+Example C03_vdot_float_instance :
+  exists d, C03.Model.vdot FOps [0x1.999999999999ap-4; 0x1.999999999999ap-3; 0x1.3333333333333p-2]%float
+                                [0x1.3333333333333p-2; (-0x1.999999999999ap-4); 0x1.6666666666666p-1]%float = Some d /\
+            FloatError.ffin d.
+Proof. eexists. split; vm_compute; reflexivity. Qed.
+
+Example C03_norm2_float_instance :
+  let m := mkdm 1 3 [0x1.999999999999ap-4; (-0x1.999999999999ap-3); 0x1.3333333333333p-2]%float in
+  FloatError.ffin (C03.Model.norm2 FOps m) /\
+  C03.ProofsFloat2.entries_normal_b (C03.Model.values m) = true /\
+  (forall x, In x (C03.Model.values m) -> FloatError.FR x = 0 \/ / 2 ^ 511 <= Rabs (FloatError.FR x))%R.
+Proof.
+  cbv zeta.
+  assert (A : FloatError.ffin (C03.Model.norm2 FOps (mkdm 1 3 [0x1.999999999999ap-4; (-0x1.999999999999ap-3); 0x1.3333333333333p-2]%float)))
+    by (vm_compute; reflexivity).
+  assert (B : C03.ProofsFloat2.entries_normal_b [0x1.999999999999ap-4; (-0x1.999999999999ap-3); 0x1.3333333333333p-2]%float = true)
+    by (vm_compute; reflexivity).
+  split; [exact A|]. split; [exact B|].
+  apply C03_entries_normal_b_meaning; [|exact B]. exact (C03.ProofsFloat2.vnorm2_entries_finite _ A).
+Qed.
+(* what the hypotheses exclude: overflow of a square (the result is not finite) and underflow of a
+   square (a non-zero entry below 2^-511: the computed norm is 0) *)
+Example C03_norm2_float_overflow_and_underflow :
+  C03.Model.vnorm2 FOps [0x1p600]%float = infinity /\ PrimFloat.is_finite infinity = false /\
+  C03.Model.vnorm2 FOps [0x1p-600]%float = 0%float /\ C03.ProofsFloat2.entries_normal_b [0x1p-600]%float = false.
+Proof. repeat split; vm_compute; reflexivity. Qed.
+
+Example C03_mean_float_instance :
+  let m := mkdm 2 2 [0x1.999999999999ap-4; 0x1.999999999999ap-3; 0x1.3333333333333p-2; (-0x1.6666666666666p-1)]%float in
+  1 < C03.Model.n_lines m true /\ (Z.of_nat (C03.Model.line_len m true) < 2 ^ 53)%Z /\
+  FloatError.ffin (nth 1 (C03.Model.mean FOps m true) 0%float) /\
+  1 < C03.Model.n_lines m false /\ (Z.of_nat (C03.Model.line_len m false) < 2 ^ 53)%Z /\
+  FloatError.ffin (nth 1 (C03.Model.mean FOps m false) 0%float) /\
+  1 < ncols m /\ (Z.of_nat (nrows m) < 2 ^ 53)%Z /\ FloatError.ffin (nth 1 (C03.Model.column_mean FOps m) 0%float) /\
+  (Z.of_nat (length (C03.Model.values m)) < 2 ^ 53)%Z /\ FloatError.ffin (C03.Model.vmean FOps (C03.Model.values m)).
+Proof. cbv zeta. repeat split; vm_compute; try reflexivity; lia. Qed.
+
+Example C03_entrywise_float_instance :
+  let a := mkdm 2 2 [0x1.999999999999ap-4; 0x1.999999999999ap-3; 0x1.3333333333333p-2; 0x1.6666666666666p-1]%float in
+  let b := mkdm 2 2 [0x1.3333333333333p-2; (-0x1.999999999999ap-4); 0x1.6666666666666p-1; 0x1.999999999999ap-3]%float in
+  (exists c, C03.Model.add FOps a b = Some c /\ FloatError.ffin (C03.Model.get FOps c 1 0)) /\
+  (exists c, C03.Model.sub FOps a b = Some c /\ FloatError.ffin (C03.Model.get FOps c 1 0)) /\
+  (exists c, C03.Model.mul FOps a b = Some c /\ FloatError.ffin (C03.Model.get FOps c 1 0)) /\
+  1 < nrows a /\ 0 < ncols a.
+Proof.
+  cbv zeta. split; [|split; [|split]]; try (eexists; split; vm_compute; reflexivity).
+  split; vm_compute; lia.
+Qed.
+
+(* scaling 0.1, -0.3, 0.2 by 2^-3: the sums (which round, and cancel) scale exactly *)
+Example C03_sum_scale_instance :
+  let m := mkdm 1 3 [0x1.999999999999ap-4; (-0x1.3333333333333p-2); 0x1.999999999999ap-3]%float in
+  let m' := mkdm 1 3 [0x1.999999999999ap-7; (-0x1.3333333333333p-5); 0x1.999999999999ap-6]%float in
+  let p := 0x1p-3%float in
+  Forall2 (fun x x' => FloatError.FR x' = FloatError.FR x * powerRZ 2 (-3))%R (C03.Model.values m) (C03.Model.values m') /\
+  FloatError.ffin (C03.Model.sum FOps m) /\ FloatError.ffin (C03.Model.sum FOps m') /\
+  FloatError.FR p = powerRZ 2 (-3) /\
+  (forall x, In x (C03.Model.values m) -> FloatError.FR (PrimFloat.mul x p) = FloatError.FR x * FloatError.FR p)%R /\
+  FloatError.ffin (C03.Model.sum FOps (C03.Model.mul_scalar FOps m p)).
+Proof.
+  cbv zeta. cbn [C03.Model.values].
+  split.
+  { constructor; [|constructor; [|constructor; [|constructor]]];
+      apply C03.ProofsFloat2.scaled_b_sound; vm_compute; reflexivity. }
+  split; [vm_compute; reflexivity|]. split; [vm_compute; reflexivity|].
+  split; [apply C03.ProofsFloat2.pow2_b_sound; vm_compute; reflexivity|].
+  split; [|vm_compute; reflexivity].
+  intros x [<-|[<-|[<-|[]]]]; apply (C03.ProofsFloat2.mul_pow2_exact_b (-3)); vm_compute; reflexivity.
+Qed.
+
+Example C03_dot_scale_instance :
+  let a := mkdm 1 2 [3; 5]%float in let a' := mkdm 1 2 [6; 10]%float in let b := mkdm 1 2 [2; 7]%float in
+  C03.Model.dot FOps a b = Some 41%float /\ C03.Model.dot FOps a' b = Some 82%float /\
+  FloatError.ffin 41%float /\ FloatError.ffin 82%float /\
+  (forall i, i < nrows a * ncols a ->
+     (FloatError.FR (nth i (C03.Model.values a') 0%float) = FloatError.FR (nth i (C03.Model.values a) 0%float) * powerRZ 2 1)%R /\
+     let t := (FloatError.FR (nth i (C03.Model.values a) 0%float) * FloatError.FR (nth i (C03.Model.values b) 0%float))%R in
+     (t = 0 \/ (/ 2 ^ 1022 <= Rabs t /\ / 2 ^ 1022 <= Rabs (t * powerRZ 2 1)))%R).
+Proof.
+  cbv zeta. cbn [C03.Model.values nrows ncols].
+  split; [vm_compute; reflexivity|]. split; [vm_compute; reflexivity|].
+  split; [vm_compute; reflexivity|]. split; [vm_compute; reflexivity|].
+  assert (Hsmall : (/ 2 ^ 1022 <= 1)%R).
+  { assert (1 <= 2 ^ 1022)%R by (apply pow_R1_Rle; lra).
+    apply (Rmult_le_reg_r (2 ^ 1022)); [lra|]. rewrite Rinv_l by lra. lra. }
+  assert (F : forall z, (0 <= z < 2 ^ 53)%Z -> FloatError.FR (FloatUtil.float_of_Z z) = IZR z).
+  { intros z Hz. apply (FloatError.float_of_Z_exact z Hz). }
+  change (powerRZ 2 1) with (2 * 1)%R.
+  intros [|[|i]] Hi; [| |cbn in Hi; lia]; cbn [nth].
+  - change 6%float with (FloatUtil.float_of_Z 6). change 3%float with (FloatUtil.float_of_Z 3).
+    change 2%float with (FloatUtil.float_of_Z 2). rewrite !F by lia.
+    split; [lra|]. right. rewrite !Rabs_pos_eq by lra. lra.
+  - change 10%float with (FloatUtil.float_of_Z 10). change 5%float with (FloatUtil.float_of_Z 5).
+    change 7%float with (FloatUtil.float_of_Z 7). rewrite !F by lia.
+    split; [lra|]. right. rewrite !Rabs_pos_eq by lra. lra.
+Qed.
